@@ -76,16 +76,23 @@ Theorem prim_iter_criterion s d M i s' d' M' L mem :
   exists a b v sz, In a L /\ In b L /\ a < b
     /\ d_steps d' = d_steps d ++ [step_new a b v sz]
     /\ crit (mem a) (mem b) v
+    /\ (forall x y, In x L -> In y L -> x <> y -> exists w, crit (mem x) (mem y) w /\ k_ltb K w v = false)
     /\ PInv s' M' (without a L) /\ LWInv s' M' (without a L) (upd_mem mem a b).
 Proof.
   intros HP (HW & HS) H. pose proof HP as (HA & Hwf & HN).
   destruct (@prim_iter_greedy T K p ltb_trans ltb_irrefl meth s d M i s' d' M' L HP H)
-    as (a & b & v & sz & Ha & Hb & Hab & Hv & _ & Hsteps & HP').
+    as (a & b & v & sz & Ha & Hb & Hab & Hv & Hmin & Hsteps & HP').
   exists a, b, v, sz. split; [exact Ha|]. split; [exact Hb|]. split; [exact Hab|]. split; [exact Hsteps|].
   destruct (HW a b Ha Hb ltac:(lia)) as (v0 & Hv0 & Hcab).
   assert (v0 = v).
   { unfold wcell in Hv0. rewrite Nat.min_l, Nat.max_r in Hv0 by lia. congruence. } subst v0.
-  split; [exact Hcab|]. split; [exact HP'|].
+  split; [exact Hcab|].
+  split.
+  { intros x y Hx Hy Hxy. destruct (HW x y Hx Hy Hxy) as (w & Hw & Hc). exists w. split; [exact Hc|].
+    unfold wcell in Hw. apply (Hmin (Nat.min x y) (Nat.max x y) w); [| |lia|exact Hw].
+    - destruct (Nat.min_spec x y) as [[_ ->]|[_ ->]]; assumption.
+    - destruct (Nat.max_spec x y) as [[_ ->]|[_ ->]]; assumption. }
+  split; [exact HP'|].
   (* open the iteration to get at update3 and the merge *)
   unfold prim_iter in H.
   destruct (Nat.lt_ge_cases (length L) 2) as [Hlt|Hge];
@@ -160,7 +167,7 @@ Proof.
   - inversion H; subst. exists [], [], L, mem. rewrite app_nil_r. split; [reflexivity|]. split; [reflexivity|].
     split; [constructor|]. split; [constructor|]. split; assumption.
   - bind_inv H. destruct a as [[s1 d1] M1].
-    destruct (@prim_iter_criterion _ _ _ _ _ _ _ _ _ HP HW E) as (a & b & v & sz & Ha & Hb & Hab & Hsteps & Hc & HP1 & HW1).
+    destruct (@prim_iter_criterion _ _ _ _ _ _ _ _ _ HP HW E) as (a & b & v & sz & Ha & Hb & Hab & Hsteps & Hc & Hgr & HP1 & HW1).
     destruct (IH _ _ _ _ _ _ _ _ HP1 HW1 H) as (news & tr & L' & mem' & Hs' & Hln & Htr & HF & HP' & HW').
     exists (step_new a b v sz :: news), ((mem a, mem b) :: tr), L', mem'.
     split; [rewrite Hs', Hsteps, <- app_assoc; reflexivity|].
@@ -168,6 +175,33 @@ Proof.
     split; [apply mt_cons; assumption|].
     split; [constructor; [|exact HF]|split; assumption].
     unfold step_new. destruct (b <? a); exact Hc.
+Qed.
+
+(* the same run seen as a greedy agglomeration: each raw step joins two live
+   clusters at their criterion value, and no pair of clusters live at that
+   moment has a strictly smaller criterion value *)
+Inductive gtrace : list nat -> (nat -> mtree) -> list (step T) -> Prop :=
+| g_nil L mem : gtrace L mem []
+| g_cons L mem a b v sz rest : In a L -> In b L -> a < b ->
+    crit (mem a) (mem b) v ->
+    (forall x y, In x L -> In y L -> x <> y -> exists w, crit (mem x) (mem y) w /\ k_ltb K w v = false) ->
+    gtrace (without a L) (upd_mem mem a b) rest ->
+    gtrace L mem (step_new a b v sz :: rest).
+
+Theorem prim_fold_greedy (idx : list nat) : forall s d M L mem s' d' M',
+  PInv s M L -> LWInv s M L mem ->
+  mfold (prim_iter K p meth) idx (s, d, M) = Ok (s', d', M') ->
+  exists news, d_steps d' = d_steps d ++ news /\ length news = length idx /\ gtrace L mem news.
+Proof.
+  induction idx as [|i idx IH]; intros s d M L mem s' d' M' HP HW H; cbn [mfold] in H.
+  - inversion H; subst. exists []. rewrite app_nil_r. split; [reflexivity|]. split; [reflexivity|constructor].
+  - bind_inv H. destruct a as [[s1 d1] M1].
+    destruct (@prim_iter_criterion _ _ _ _ _ _ _ _ _ HP HW E) as (a & b & v & sz & Ha & Hb & Hab & Hsteps & Hc & Hgr & HP1 & HW1).
+    destruct (IH _ _ _ _ _ _ _ _ HP1 HW1 H) as (news & Hs' & Hln & Hg).
+    exists (step_new a b v sz :: news).
+    split; [rewrite Hs', Hsteps, <- app_assoc; reflexivity|].
+    split; [cbn [length]; rewrite Hln; reflexivity|].
+    apply g_cons; assumption.
 Qed.
 
 Lemma nth_error_repeat {A} (x : A) n i : i < n -> nth_error (repeat x n) i = Some x.
@@ -217,6 +251,45 @@ Proof.
     exists news, tr, L', mem'. split; [exact Htr|]. split; [exact HF|].
     assert (Hlen : length news = m_obs M0 - 1) by (rewrite Hln, seq_length; reflexivity).
     split; [exact Hlen|].
+    assert (Hh1 : heights d1 = map (@s_dis T) news) by (unfold heights; rewrite Hs; reflexivity).
+    rewrite heights_sqrt_all.
+    destruct (requires_sorting meth) eqn:Hsort.
+    + destruct (@relabel_heights T (k_ltb K) (k_eqb K) _ _ _ _ _ E0) as [_ (l & Hl0 & Hh)].
+      destruct (@sort_steps_ok T (k_ltb K) (k_eqb K) (@gt_flip T K) _ _ Hl0) as [_ Hperm].
+      split; [|discriminate]. rewrite Hh, <- Hh1. apply Permutation_map. unfold heights.
+      apply Permutation_map. apply Permutation_sym. exact Hperm.
+    + pose proof (proj2 (@relabel_heights T (k_ltb K) (k_eqb K) _ _ _ _ _ E0)) as Hh. cbn beta iota in Hh.
+      rewrite Hh, Hh1. split; [apply Permutation_refl|reflexivity].
+Qed.
+
+Theorem primitive_greedy s d m n s' d' m' M0 :
+  primitive_with K p meth s d m n = Ok (s', d', m') ->
+  prologue p (square_all K m) n = Ok M0 ->
+  (forall x y v, x <> y -> x < m_obs M0 -> y < m_obs M0 -> wcell M0 x y = Some v -> crit (Leaf x) (Leaf y) v) ->
+  exists raw,
+    gtrace (seq 0 (m_obs M0)) Leaf raw
+    /\ length raw = m_obs M0 - 1
+    /\ Permutation (heights d') (map (k_rt K) (map (@s_dis T) raw))
+    /\ (requires_sorting meth = false -> heights d' = map (k_rt K) (map (@s_dis T) raw)).
+Proof.
+  intros H HM0 Hleaf. unfold primitive_with in H. rewrite HM0 in H. cbn [bind] in H.
+  destruct (Nat.eqb_spec (m_obs M0) 0) as [Hz|Hz].
+  - inversion H; subst. exists []. split; [constructor|]. split; [rewrite Hz; reflexivity|].
+    unfold heights. cbn [d_reset d_steps map]. split; [constructor|reflexivity].
+  - bind_inv H. destruct a as [[s1 d1] M1]. bind_inv H. destruct a as [u d2]. inversion H; subst s' d' m'. clear H.
+    destruct (prologue_wf _ _ _ HM0) as [Hwf _].
+    pose proof (@prim_init T K s M0 Hwf) as HP0.
+    assert (HW0 : LWInv (st_reset K s (m_obs M0)) M0 (seq 0 (m_obs M0)) Leaf).
+    { split.
+      - intros x y Hx Hy Hxy. apply in_seq in Hx. apply in_seq in Hy.
+        destruct (wcell_some Hwf Hxy ltac:(lia) ltac:(lia)) as (v & Hv).
+        exists v. split; [exact Hv|]. apply Hleaf; [exact Hxy|lia|lia|exact Hv].
+      - intros x Hx. apply in_seq in Hx. cbn [st_reset st_sizes tsize]. unfold clear_resize, vresize.
+        rewrite firstn_nil. cbn [length app]. rewrite Nat.sub_0_r. apply nth_error_repeat. lia. }
+    destruct (@prim_fold_greedy _ _ _ _ _ _ _ _ _ HP0 HW0 E) as (news & Hs & Hln & Hg).
+    cbn [d_reset d_steps app] in Hs.
+    exists news. split; [exact Hg|].
+    split; [rewrite Hln, seq_length; reflexivity|].
     assert (Hh1 : heights d1 = map (@s_dis T) news) by (unfold heights; rewrite Hs; reflexivity).
     rewrite heights_sqrt_all.
     destruct (requires_sorting meth) eqn:Hsort.
